@@ -22,7 +22,7 @@
                      (payload = board-in(X) ++ the moves); all on ONE driver
             output = for every command: board-out without history ++ [Threefold; (Hash == calculateHash); len(history)] *)
 From Coq Require Import NArith ZArith List Bool.
-From Chess3 Require Import Base.Bits Model.Types Model.BoardDef Model.Board Model.Rep3 Gen.Zobrist.
+From Chess3 Require Import Base.Bits Model.Types Model.BoardDef Model.Board Model.Movegen Model.Rep3 Gen.Zobrist.
 Import ListNotations.
 Open Scope Z_scope.
 
@@ -93,6 +93,14 @@ Definition run_c10two (l : list Z) : list Z :=
 
 (* kinds 0 1 2: the payload is the move list, the root is the start board; kinds 3 (`position fen X
    [moves ..]`) and 4 (`ucinewgame` first): the payload is board-in(X) followed by the move list *)
+(* applyMoves (uci.go): the moves are played one by one; the first one that parseUCIMove does not accept
+   (= IsPseudoLegal answers no, property C05) ends the command and the board stays where it is *)
+Fixpoint run_moves_accepted (b : board) (ms : list N) : board :=
+  match ms with
+  | [] => b
+  | m :: r => if is_pseudo_legal b m then run_moves_accepted (fst (make zob_real b m)) r else b
+  end.
+
 Definition reuse_root_moves (start : board) (kind : Z) (payload : list Z) : board * list N :=
   if 3 <=? kind then
     match decode_board payload with
@@ -109,7 +117,7 @@ Fixpoint run_reuse_cmds (start : board) (k : nat) (l : list Z) : list Z :=
       | kind :: n :: r =>
           let c := Z.to_nat n in
           let '(root, ms) := reuse_root_moves start kind (firstn c r) in
-          let b := run_moves zob_real root ms in
+          let b := run_moves_accepted root ms in
           encode_board_nohist b ++ obs3 b ++ run_reuse_cmds start k' (skipn c r)
       | _ => []
       end
